@@ -38,7 +38,7 @@ def decide(solver, fixes):
         # the shard watchdog cannot interrupt a C call: bound every z3 query (no query of the unchanged tree comes near)
         import z3
 
-        z3.set_param("timeout", 120000)
+        z3.set_param("timeout", 300000)
         _Z3_TIMEOUT_SET[0] = True
     saved = solver.constraints
     solver.constraints = list(saved) + list(fixes)
